@@ -64,7 +64,10 @@ Record crn_cfg := CrnCfg {
   cc_use_frontier : bool;
   cc_dedup_across : bool;
   cc_max_mix : N;                     (* max_mixtures_per_rule_step *)
-  cc_max_tasks : N }.                 (* max_tasks_per_step *)
+  cc_max_tasks : N;                   (* max_tasks_per_step *)
+  cc_skip_no_change : bool;
+  cc_allow_empty_side : bool;
+  cc_dedup_delta : bool }.
 
 (** * Mixtures (_iter_mixtures_arity1 / 2 / k) — the complete sequence, the cap is applied by [capped] *)
 Definition mixtures (use_frontier : bool) (arity : nat) (pool frontier : list N) : list mixt :=
@@ -224,13 +227,14 @@ Definition integrate_mixture (c : crn_cfg) (step ridx : nat) (mix : mixt) (rids 
   let unchanged := filter (fun k => memk k pm) mix in
   let rk := pairs_keep rids mix unchanged in
   let pk := pairs_keep pids pm unchanged in
-  match rk, pk with
-  | [], _ => (st1, nf)                                                 (* skip_no_change / allow_empty_side *)
-  | _, [] => (st1, nf)
-  | _, _ =>
+  let r_empty := match rk with [] => true | _ => false end in
+  let p_empty := match pk with [] => true | _ => false end in
+  if (cc_skip_no_change c && r_empty && p_empty) || (negb (cc_allow_empty_side c) && (r_empty || p_empty))
+  then (st1, nf)
+  else
       let dkey := (if cc_dedup_across c then None else Some ridx,
                    sorted_list (map snd rk), sorted_list (map snd pk)) in
-      if delta_mem dkey (s_delta st1) then (st1, nf)
+      if cc_dedup_delta c && delta_mem dkey (s_delta st1) then (st1, nf)
       else
         let app := app_get (s_app st1) step ridx in
         let eid := s_next st1 in
@@ -239,9 +243,9 @@ Definition integrate_mixture (c : crn_cfg) (step ridx : nat) (mix : mixt) (rids 
         (* _update_pool_with_products *)
         let new := dedupe_k (s_pool st1) pm in
         (CrnState (s_index st1) (eid + 1) (s_nodes st1 ++ [ev]) (s_pool st1 ++ new) (s_seen st1)
-                  (dkey :: s_delta st1) (app_set (s_app st1) step ridx (app + 1)),
-         nf ++ dedupe_k nf new)
-  end.
+                  (if cc_dedup_delta c then dkey :: s_delta st1 else s_delta st1)
+                  (app_set (s_app st1) step ridx (app + 1)),
+         nf ++ dedupe_k nf new).
 
 Fixpoint all_some {A} (l : list (option A)) : option (list A) :=
   match l with
@@ -286,8 +290,9 @@ Fixpoint build_loop (c : crn_cfg) (parallel : bool) (workers : nat) (t : exec_ta
         end
   end.
 
-(** _init_pool: [None] = a seed RDKit cannot standardise *)
-Definition init_pool (seeds : list (option N)) : crn_state :=
+(** _init_pool: [None] = a seed RDKit cannot standardise.  The pool of a build call starts EMPTY (the seeds of this call
+    only); species index, graph, attempt / delta memories and application counters of the object persist. *)
+Definition init_pool (st0 : crn_state) (seeds : list (option N)) : crn_state :=
   fold_left (fun st s => match s with
                          | None => st
                          | Some k =>
@@ -295,14 +300,32 @@ Definition init_pool (seeds : list (option N)) : crn_state :=
                              if memk k (s_pool st1) then st1
                              else CrnState (s_index st1) (s_next st1) (s_nodes st1) (s_pool st1 ++ [k]) (s_seen st1)
                                            (s_delta st1) (s_app st1)
-                         end) seeds (CrnState [] 1 [] [] [] [] []).
+                         end) seeds
+            (CrnState (s_index st0) (s_next st0) (s_nodes st0) [] (s_seen st0) (s_delta st0) (s_app st0)).
 
-Definition build (c : crn_cfg) (parallel : bool) (workers : nat) (t : exec_table) (seeds : list (option N))
-  : crn_state * list nat :=
-  let st := init_pool seeds in
+Definition crn_new : crn_state := CrnState [] 1 [] [] [] [] [].
+
+(** one call of [build] on an object in state [st0] *)
+Definition build_from (c : crn_cfg) (parallel : bool) (workers : nat) (t : exec_table) (st0 : crn_state)
+           (seeds : list (option N)) : crn_state * list nat :=
+  let st := init_pool st0 seeds in
   match s_pool st with
   | [] => (st, [])
   | _ => build_loop c parallel workers t (cc_repeats c) 1 st (s_pool st) []
+  end.
+
+Definition build (c : crn_cfg) (parallel : bool) (workers : nat) (t : exec_table) (seeds : list (option N))
+  : crn_state * list nat := build_from c parallel workers t crn_new seeds.
+
+(** successive [build] calls on ONE object: the states after each call and the task counts of all calls *)
+Fixpoint builds_from (c : crn_cfg) (parallel : bool) (workers : nat) (t : exec_table) (st0 : crn_state)
+         (calls : list (list (option N))) : list crn_state * list nat :=
+  match calls with
+  | [] => ([], [])
+  | seeds :: calls' =>
+      let '(st1, n1) := build_from c parallel workers t st0 seeds in
+      let '(sts, ns) := builds_from c parallel workers t st1 calls' in
+      (st1 :: sts, n1 ++ ns)
   end.
 
 (** * Observable *)
@@ -317,7 +340,8 @@ Definition tnode_event (g : gnode) : list tok :=
 Definition trecord (st : crn_state) : tok :=
   L [L (flat_map tnode_species (s_nodes st)); L (flat_map tnode_event (s_nodes st))].
 
-(** [runs] = the (parallel, max_workers) configurations, the serial build first *)
-Definition run_crn (c : crn_cfg) (t : exec_table) (seeds : list (option N)) (runs : list (bool * nat)) : tok :=
-  L [ tlist (fun pw : bool * nat => trecord (fst (build c (fst pw) (snd pw) t seeds))) runs;
-      tlist tnat (snd (build c false 0 t seeds)) ].
+(** [runs] = the (parallel, max_workers) configurations, the serial one first; [calls] = the seed lists of the successive
+    build calls on one object *)
+Definition run_crn (c : crn_cfg) (t : exec_table) (calls : list (list (option N))) (runs : list (bool * nat)) : tok :=
+  L [ tlist (fun pw : bool * nat => tlist trecord (fst (builds_from c (fst pw) (snd pw) t crn_new calls))) runs;
+      tlist tnat (snd (builds_from c false 0 t crn_new calls)) ].
